@@ -13,8 +13,9 @@ Definition UNMODELLED : N := 98.
 
 (* ---------- open ---------- *)
 Record cfolder := mkFo { fo_comp : N; fo_nblocks : N; fo_offset : Z; fo_mprev : bool; fo_mnext : bool }.
+(* fi_code: the iFolder field as stored (a folder index or one of the three CONTINUED codes) *)
 Record cfile := mkFi { fi_name : list N; fi_len : N; fi_attr : N; fi_off : N; fi_folder : N;
-                       fi_th : N; fi_tm : N; fi_ts : N; fi_dy : N; fi_dm : N; fi_dd : N }.
+                       fi_th : N; fi_tm : N; fi_ts : N; fi_dy : N; fi_dm : N; fi_dd : N; fi_code : N }.
 Record cabinet := mkCab { c_base : Z; c_len : N; c_setid : N; c_idx : N; c_flags : N; c_hres : N; c_bres : N;
                           c_prev : option (list N); c_pinfo : option (list N); c_next : option (list N); c_ninfo : option (list N);
                           c_folders : list cfolder; c_files : list cfile }.
@@ -70,7 +71,7 @@ Fixpoint read_files (n : nat) (file : list N) (pos : Z) (salvage : bool) (nfold 
     | Some fo =>
       let f := mkFi name (le32 b cffile_UncompressedSize) (le16 b cffile_Attribs) (le32 b cffile_FolderOffset) fo
                     (N.shiftr t 11) (N.land (N.shiftr t 5) 63) (N.land (N.shiftl t 1) 62)
-                    (N.shiftr d 9 + 1980) (N.land (N.shiftr d 5) 15) (N.land d 31) in
+                    (N.shiftr d 9 + 1980) (N.land (N.shiftr d 5) 15) (N.land d 31) fidx in
       let folders1 := if to_next then set_mnext folders else folders in
       let folders2 := if from_prev then set_mprev folders1 else folders1 in
       read_files n' file pos' salvage nfold folders2 (f :: acc)
@@ -229,7 +230,7 @@ Definition dec_call (fo : cfolder) (d : cdec) (b : bst) (h : chost) (n : N) : N 
   | DZip z =>
     match cexec file par (c_bres cab) comp nb h (buffered bufsize_even EofPad2 (Mszip.zcall n z) b) with
     | ((SVal (e, failed, z'), b'), h') => ((if failed && p_fixmszip par then UNMODELLED else e), DZip z', b', h')
-    | ((SStop e, b'), h') => (e, DZip (Mszip.mkZS (Mszip.zs z) 0 0 e), b', h')
+    | ((SStop e, b'), h') => ((if p_fixmszip par then UNMODELLED else e), DZip (Mszip.mkZS (Mszip.zs z) 0 0 e), b', h')   (* repair mode flushes the partly inflated frame before returning a read error *)
     end
   | DQtm q =>
     match cexec file par (c_bres cab) comp nb h (buffered bufsize_even EofPad2 (Qtm.decompress n q) b) with
